@@ -83,7 +83,42 @@ def tolerant_equal(fam, q, a, b):
     return tol(q, a, b)
 
 
-TOLERANT = {}
+import re as _re
+import struct as _struct
+
+_HEX16 = _re.compile(r'^[0-9a-f]{16}$')
+NOISE = {'count': 0}
+
+
+def _f(tok):
+    return _struct.unpack('<d', bytes.fromhex(tok)[::-1])[0]
+
+
+def _float_noise(q, a, b):
+    """replies equal token by token, float tokens (bit patterns) allowed to differ by 1e-12 relative:
+    what a harmless re-association of floating-point arithmetic produces. Decisions (0/1, some/none,
+    counts, names) must be identical."""
+    ta, tb = a.split(' '), b.split(' ')
+    if len(ta) != len(tb):
+        return False
+    for x, y in zip(ta, tb):
+        if x == y:
+            continue
+        if not (_HEX16.match(x) and _HEX16.match(y)):
+            return False
+        fx, fy = _f(x), _f(y)
+        if fx != fx or fy != fy or abs(fx) == float('inf') or abs(fy) == float('inf'):
+            return False
+        if abs(fx - fy) > 1e-12 * max(abs(fx), abs(fy)) + 1e-300:
+            return False
+    NOISE['count'] += 1
+    return True
+
+
+# tier 2 applies to single-evaluation families whose outputs are numbers the properties state "to
+# floating-point accuracy"; never to wrap (edge behaviour at +-1/2 is the point), rng, basis, opt*
+# (whole trajectories), parse, tables, json, svg, cli (exact by nature)
+TOLERANT = {f: _float_noise for f in ('mat', 'cell', 'site', 'pair', 'pair_hard', 'pair_lj', 'state', 'state_hard', 'state_lj')}
 
 # ---------------------------------------------------------------- properties
 
